@@ -81,7 +81,7 @@ CLAIMS = {
        "dimension guards of the nine same-dimension methods, cross, rotate_axis, boosts; operators = methods; TOTALITY of all 82 generated dispatch tables over their key "
        "types (decide +kernel). Correspondence: complete object-backend lattice (exact, symbolic) and a cross-backend type lattice (object/NumPy/Awkward array/record, both "
        "registration modes) against the model's prediction; `_wrap_result` of the object, NumPy, Awkward and SymPy backends called DIRECTLY on the whole finite lattice (28 declared result shapes x 20 stored systems x flavors: class, system and source of every coordinate vs the Lean rule wrapVec); operator/ufunc value lattice (abs ** numpy.power/sqrt/cbrt/square * / - + @ == != vs methods) on all backends; keyword = positional calls from the documented signatures. Five known findings in the Awkward backend are listed, everything else must match. "
-       "UFUNC ROUTING MODEL (Glue/Ufunc.lean, Props/C05Ufunc.lean, ~50 theorems c05u_; Driver/Ufunc.lean, harness/ufunc.py): the four __array_ufunc__ / behavior tables transcribed branch by branch; proved: the object, NumPy and SymPy chains are ONE chain (c05u_tables_agree), Awkward's 420-key registry is complete and agrees wherever they accept, every accepted route IS the operator of Glue/Methods applied in the documented order (multiply(k, v) = multiply(v, k) = scale ...), the exact set of rejected shapes, out= honoured exactly for vector-valued routes, deferral to the higher-priority backend; every difference between the tables is a theorem with a witness (power with out=, power(v, 2) on spacelike vectors, array exponents, flavor lost in __cast__). Tie: ~9 900 requests per quick run (30 235 thorough): the model's route is evaluated on the real library and compared with numpy.<ufunc>(...), the Python operator and in-place forms, and the registry keys.",
+       "UFUNC ROUTING MODEL (Glue/Ufunc.lean, Props/C05Ufunc.lean, ~50 theorems c05u_; Driver/Ufunc.lean, harness/ufunc.py): the four __array_ufunc__ / behavior tables transcribed branch by branch; proved: the object, NumPy and SymPy chains are ONE chain (c05u_tables_agree), Awkward's 420-key registry is complete and agrees wherever they accept, every accepted route IS the operator of Glue/Methods applied in the documented order (multiply(k, v) = multiply(v, k) = scale ...), the exact set of rejected shapes, out= honoured exactly for vector-valued routes, deferral to the higher-priority backend; every difference between the tables is a theorem with a witness (power with out=, power(v, 2) on spacelike vectors, array exponents, flavor lost in __cast__). Tie: ~9 900 requests per quick run (30 235 thorough): the model's route is evaluated on the real library and compared with numpy.<ufunc>(...), the Python operator and in-place forms, and the registry keys. DENOTATION (Props/UfuncDenote.lean, 27 theorems c05d_): composed with the method-level theorems over the reals - numpy.add / subtract / matmul / multiply (both operand orders) / true_divide / negative / absolute / square of well-formed operands in every storage pairing and backend denote the component-wise sum, difference, Euclidean or Minkowski product, scalar multiple, norm ..., independent of the backend tags.",
   note=GL + "known-finding classes mask further changes of the same class (see DESIGN.md).",
   technique="Lean 4 proofs (incl. decide over generated tables) + exhaustive/sampled correspondence of result types"),
  "C06": dict(category="proof", design="4/C06",
